@@ -228,7 +228,13 @@ pub fn run(tr: &mut Tr, seed: u64, paths_file: &str, ops: &str, full: bool, shar
         for img in images(&mut rng, cfg, nimages) {
             let nbits = 8 * img.len() as u64;
             // the unbuffered reader's hidden state is its bit offset within a word
-            let unbuf_paths: Vec<StatePath> = (0..64).map(|k| StatePath { w: 64, key: k, path: vec![POp::Skip(k)] }).collect();
+            // (reached by a skip, by a read, and - for the aligned ones - one and two words further on)
+            let mut unbuf_paths: Vec<StatePath> = (0..64).map(|k| StatePath { w: 64, key: k, path: vec![POp::Skip(k)] }).collect();
+            for k in [0usize, 1, 63] {
+                unbuf_paths.push(StatePath { w: 64, key: 64 + k, path: vec![POp::Skip(64 + k)] });
+                unbuf_paths.push(StatePath { w: 64, key: 128 + k, path: vec![POp::Read(64), POp::Read(64), POp::Read(k)] });
+                unbuf_paths.push(StatePath { w: 64, key: 192 + k, path: vec![POp::Read(13), POp::Skip(51 + 64 + k)] });
+            }
             let plist: Vec<&StatePath> = if cfg.kind == "unbuf" {
                 unbuf_paths.iter().collect()
             } else {
